@@ -17,30 +17,100 @@ import (
 	"strings"
 )
 
-type psTarget struct{ pkg, recv, name string }
+// The walked functions are COMPUTED: the roots are the methods of the types Create hands to memberlist
+// (conf.MemberlistConfig.Delegate/Events/Conflict/Ping/Merge/Alive) plus the goroutines that consume the
+// channels the network handlers feed; from there every call, `go` and `defer` whose callee resolves to a
+// function of the serf or coordinate package is followed (calls through interfaces and function values do
+// not resolve and are not followed).
 
-var psTargets = []psTarget{
-	{"serf", "delegate", "NodeMeta"}, {"serf", "delegate", "NotifyMsg"}, {"serf", "delegate", "LocalState"}, {"serf", "delegate", "MergeRemoteState"},
-	{"serf", "Serf", "handleNodeLeaveIntent"}, {"serf", "Serf", "handleNodeJoinIntent"}, {"serf", "Serf", "handleUserEvent"},
-	{"serf", "Serf", "handleQuery"}, {"serf", "Serf", "handleQueryResponse"}, {"serf", "Serf", "handleNodeJoin"}, {"serf", "Serf", "handleNodeLeave"},
-	{"serf", "Serf", "handleNodeUpdate"}, {"serf", "Serf", "handleNodeConflict"}, {"serf", "Serf", "resolveNodeConflict"}, {"serf", "Serf", "handlePrune"},
-	{"serf", "Serf", "eraseNode"}, {"serf", "Serf", "decodeTags"}, {"serf", "Serf", "encodeTags"}, {"serf", "", "removeOldMember"}, {"serf", "", "upsertIntent"},
-	{"serf", "", "recentIntent"}, {"serf", "Serf", "shouldProcessQuery"}, {"serf", "Serf", "relayResponse"}, {"serf", "", "kRandomMembers"},
-	{"serf", "QueryResponse", "sendAck"}, {"serf", "QueryResponse", "sendResponse"}, {"serf", "", "newQueryResponse"},
-	{"serf", "Query", "createResponse"}, {"serf", "Query", "checkResponseSize"}, {"serf", "Query", "respondWithMessageAndResponse"}, {"serf", "Query", "Respond"},
-	{"serf", "serfQueries", "stream"}, {"serf", "serfQueries", "handleQuery"}, {"serf", "serfQueries", "handleConflict"},
-	{"serf", "serfQueries", "keyListResponseWithCorrectSize"}, {"serf", "serfQueries", "sendKeyResponse"}, {"serf", "serfQueries", "handleInstallKey"},
-	{"serf", "serfQueries", "handleUseKey"}, {"serf", "serfQueries", "handleRemoveKey"}, {"serf", "serfQueries", "handleListKeys"},
-	{"serf", "KeyManager", "streamKeyResp"}, {"serf", "pingDelegate", "NotifyPingComplete"}, {"serf", "pingDelegate", "AckPayload"},
-	{"serf", "mergeDelegate", "NotifyMerge"}, {"serf", "mergeDelegate", "NotifyAlive"}, {"serf", "mergeDelegate", "nodeToMember"}, {"serf", "mergeDelegate", "validateMemberInfo"},
-	{"serf", "eventDelegate", "NotifyJoin"}, {"serf", "eventDelegate", "NotifyLeave"}, {"serf", "eventDelegate", "NotifyUpdate"}, {"serf", "conflictDelegate", "NotifyConflict"},
-	{"serf", "", "decodeMessage"}, {"serf", "", "encodeMessage"}, {"serf", "", "encodeRelayMessage"}, {"serf", "", "encodeFilter"},
-	{"serf", "messageQuery", "Ack"}, {"serf", "messageQuery", "NoBroadcast"}, {"serf", "messageQueryResponse", "Ack"},
-	{"coordinate", "Client", "Update"}, {"coordinate", "Client", "checkCoordinate"}, {"coordinate", "Client", "latencyFilter"}, {"coordinate", "Client", "updateVivaldi"},
-	{"coordinate", "Client", "updateAdjustment"}, {"coordinate", "Client", "updateGravity"}, {"coordinate", "Client", "GetCoordinate"}, {"coordinate", "Client", "ForgetNode"},
-	{"coordinate", "Coordinate", "DistanceTo"}, {"coordinate", "Coordinate", "IsCompatibleWith"}, {"coordinate", "Coordinate", "IsValid"}, {"coordinate", "Coordinate", "ApplyForce"},
-	{"coordinate", "Coordinate", "rawDistanceTo"}, {"coordinate", "Coordinate", "Clone"}, {"coordinate", "", "NewCoordinate"}, {"coordinate", "", "add"}, {"coordinate", "", "diff"},
-	{"coordinate", "", "mul"}, {"coordinate", "", "magnitude"}, {"coordinate", "", "unitVectorAt"}, {"coordinate", "", "componentIsValid"},
+// psHandOff: consumers of channels that carry network-derived values (no call edge leads to them).
+var psHandOff = []string{
+	"serf.serfQueries.stream",       // reads the event channel handleQuery/handleUserEvent/handleNode* send to
+	"serf.coalesceLoop",             // same channel when event coalescing is configured
+	"serf.KeyManager.streamKeyResp", // reads the reply channel handleQueryResponse sends to
+	"serf.Snapshotter.teeStream",    // same event channel when a snapshot path is configured
+	"serf.Snapshotter.stream",
+}
+
+// delegateTypes: the T of every `conf.MemberlistConfig.X = &T{…}` / `md := &T{…}; conf.MemberlistConfig.X = md` in Create.
+func delegateTypes(p *psPkgs) ([]string, error) {
+	fd := p.funcs["serf.Create"]
+	if fd == nil {
+		return nil, fmt.Errorf("serf.Create not found")
+	}
+	locals := map[string]string{}
+	seen := map[string]bool{}
+	var out []string
+	litType := func(e ast.Expr) string {
+		if u, ok := e.(*ast.UnaryExpr); ok && u.Op == token.AND {
+			if cl, ok := u.X.(*ast.CompositeLit); ok {
+				if id, ok := cl.Type.(*ast.Ident); ok {
+					return id.Name
+				}
+			}
+		}
+		if id, ok := e.(*ast.Ident); ok {
+			return locals[id.Name]
+		}
+		return ""
+	}
+	ast.Inspect(fd.Body, func(n ast.Node) bool {
+		as, ok := n.(*ast.AssignStmt)
+		if !ok || len(as.Lhs) != 1 || len(as.Rhs) != 1 {
+			return true
+		}
+		if id, ok := as.Lhs[0].(*ast.Ident); ok {
+			if t := litType(as.Rhs[0]); t != "" {
+				locals[id.Name] = t
+			}
+			return true
+		}
+		if strings.HasPrefix(psExpr(as.Lhs[0]), "conf.MemberlistConfig.") {
+			if t := litType(as.Rhs[0]); t != "" && !seen[t] {
+				seen[t] = true
+				out = append(out, t)
+			}
+		}
+		return true
+	})
+	if len(out) < 4 {
+		return nil, fmt.Errorf("Create: expected the memberlist delegates to be assigned as &T{…}, found %v", out)
+	}
+	return out, nil
+}
+
+func psRoots(p *psPkgs) ([]string, error) {
+	dts, err := delegateTypes(p)
+	if err != nil {
+		return nil, err
+	}
+	var roots []string
+	for k := range p.funcs {
+		parts := strings.Split(k, ".")
+		if len(parts) == 3 && parts[0] == "serf" {
+			for _, t := range dts {
+				if parts[1] == t {
+					roots = append(roots, k)
+				}
+			}
+		}
+	}
+	sort.Strings(roots)
+	for _, h := range psHandOff {
+		if p.funcs[h] == nil {
+			return nil, fmt.Errorf("hand-off root %s not found", h)
+		}
+		roots = append(roots, h)
+	}
+	return roots, nil
+}
+
+func psShortKey(k string) string {
+	parts := strings.Split(k, ".")
+	if len(parts) == 3 {
+		return parts[1] + "_" + parts[2]
+	}
+	return parts[0] + "_" + parts[1]
 }
 
 // Hypotheses that are not visible as a dominating guard in the walked function:
@@ -107,8 +177,156 @@ var psAmbient = []psAmb{
 		}},
 	{"delegate_MergeRemoteState", "v_dyn_d_serf_eventJoinIgnore_Load_is_bool", "v_dyn_d_serf_eventJoinIgnore_Load_is_bool = 1",
 		"inv: every eventJoinIgnore.Store(…) in the package stores a bool literal, and Create stores one before the delegate is handed to memberlist", storesBool},
+	{"userEventCoalescer_Handle", "v_dyn_e_is_UserEvent", "v_e_EventType = " + "EVENTUSER" + " → v_dyn_e_is_UserEvent = 1",
+		"inv: UserEvent is the only type in the package whose EventType() returns EventUser", onlyUserEventIsEventUser},
+	{"userEventCoalescer_Coalesce", "v_dyn_e_is_UserEvent", "v_dyn_e_is_UserEvent = 1",
+		"caller: coalesceLoop calls Coalesce(e) only after Handle(e) returned true, and userEventCoalescer.Handle returns true only after its own e.(UserEvent) succeeded",
+		func(p *psPkgs) bool { return coalesceAfterHandle(p) && handleTrueOnlyAfterAssert(p) }},
+	{"memberEventCoalescer_Coalesce", "v_dyn_raw_is_MemberEvent", "v_dyn_raw_is_MemberEvent = 1",
+		"caller: coalesceLoop calls Coalesce(e) only after Handle(e) returned true; memberEventCoalescer.Handle returns true only for the EventMember* kinds, which only MemberEvent values carry (UserEvent and *Query return the constants EventUser/EventQuery)",
+		func(p *psPkgs) bool {
+			return coalesceAfterHandle(p) && memberHandleOnlyMemberKinds(p) && onlyUserEventIsEventUser(p)
+		}},
 	{"QueryResponse_sendAck", "ptr_r_ackCh", "0 < ptr_r_ackCh → 0 < ptr_r_acks", "inv: newQueryResponse makes ackCh and acks together (if q.Ack()); a send on a nil channel is never selected",
 		func(p *psPkgs) bool { return ackPairShape(p) }},
+}
+
+// eventTypeReturns: for every method named EventType in package serf, the text of its single returned expression.
+func eventTypeReturns(p *psPkgs) map[string]string {
+	out := map[string]string{}
+	for k, fd := range p.funcs {
+		parts := strings.Split(k, ".")
+		if len(parts) != 3 || parts[0] != "serf" || parts[2] != "EventType" || fd.Body == nil || len(fd.Body.List) != 1 {
+			continue
+		}
+		if r, ok := fd.Body.List[0].(*ast.ReturnStmt); ok && len(r.Results) == 1 {
+			out[parts[1]] = psExpr(r.Results[0])
+		}
+	}
+	return out
+}
+
+func onlyUserEventIsEventUser(p *psPkgs) bool {
+	rs := eventTypeReturns(p)
+	if rs["UserEvent"] != "EventUser" || rs["Query"] != "EventQuery" || len(rs) != 3 {
+		return false
+	}
+	me, ok := rs["MemberEvent"]
+	if !ok || !strings.HasSuffix(me, ".Type") {
+		return false
+	}
+	// no MemberEvent literal carries EventUser / EventQuery
+	bad := false
+	for fn, f := range p.files {
+		if !strings.HasPrefix(fn, "serf/") {
+			continue
+		}
+		ast.Inspect(f, func(n ast.Node) bool {
+			cl, ok := n.(*ast.CompositeLit)
+			if !ok || psExpr(cl.Type) != "MemberEvent" {
+				return true
+			}
+			for _, el := range cl.Elts {
+				if kv, ok := el.(*ast.KeyValueExpr); ok && psExpr(kv.Key) == "Type" {
+					if v := psExpr(kv.Value); v == "EventUser" || v == "EventQuery" {
+						bad = true
+					}
+				}
+			}
+			return true
+		})
+	}
+	return !bad
+}
+
+// coalesceAfterHandle: in coalesceLoop, `if !c.Handle(e) { …; continue }` precedes `c.Coalesce(e)` in the same clause.
+func coalesceAfterHandle(p *psPkgs) bool {
+	fd := p.funcs["serf.coalesceLoop"]
+	if fd == nil {
+		return false
+	}
+	ok := false
+	ast.Inspect(fd.Body, func(n ast.Node) bool {
+		cc, is := n.(*ast.CommClause)
+		if !is {
+			return true
+		}
+		guarded := false
+		for _, s := range cc.Body {
+			if ifs, is := s.(*ast.IfStmt); is && psExpr(ifs.Cond) == "!c.Handle(e)" && len(ifs.Body.List) > 0 {
+				if b, is := ifs.Body.List[len(ifs.Body.List)-1].(*ast.BranchStmt); is && b.Tok == token.CONTINUE {
+					guarded = true
+				}
+			}
+			if es, is := s.(*ast.ExprStmt); is && psExpr(es.X) == "c.Coalesce(e)" {
+				ok = guarded
+			}
+		}
+		return true
+	})
+	// and Coalesce is called nowhere else in the package
+	n := 0
+	for fnm, f := range p.files {
+		if !strings.HasPrefix(fnm, "serf/") {
+			continue
+		}
+		ast.Inspect(f, func(nd ast.Node) bool {
+			if c, is := nd.(*ast.CallExpr); is {
+				if sel, is := c.Fun.(*ast.SelectorExpr); is && sel.Sel.Name == "Coalesce" {
+					n++
+				}
+			}
+			return true
+		})
+	}
+	return ok && n == 1
+}
+
+// handleTrueOnlyAfterAssert: userEventCoalescer.Handle = { if e.EventType() != EventUser { return false }; user := e.(UserEvent); return user.Coalesce }.
+func handleTrueOnlyAfterAssert(p *psPkgs) bool {
+	fd := p.funcs["serf.userEventCoalescer.Handle"]
+	if fd == nil || len(fd.Body.List) != 3 {
+		return false
+	}
+	as, ok := fd.Body.List[1].(*ast.AssignStmt)
+	if !ok || len(as.Rhs) != 1 || psExpr(as.Rhs[0]) != "e.(UserEvent)" {
+		return false
+	}
+	ifs, ok := fd.Body.List[0].(*ast.IfStmt)
+	return ok && psExpr(ifs.Cond) == "e.EventType() != EventUser"
+}
+
+// memberHandleOnlyMemberKinds: every `return true` of memberEventCoalescer.Handle sits in a case clause that lists only EventMember* constants.
+func memberHandleOnlyMemberKinds(p *psPkgs) bool {
+	fd := p.funcs["serf.memberEventCoalescer.Handle"]
+	if fd == nil || len(fd.Body.List) != 1 {
+		return false
+	}
+	sw, ok := fd.Body.List[0].(*ast.SwitchStmt)
+	if !ok || psExpr(sw.Tag) != "e.EventType()" {
+		return false
+	}
+	for _, cl := range sw.Body.List {
+		cc := cl.(*ast.CaseClause)
+		retTrue := false
+		for _, s := range cc.Body {
+			if r, is := s.(*ast.ReturnStmt); is && len(r.Results) == 1 && psExpr(r.Results[0]) == "true" {
+				retTrue = true
+			}
+		}
+		if !retTrue {
+			continue
+		}
+		if cc.List == nil {
+			return false
+		}
+		for _, e := range cc.List {
+			if !strings.HasPrefix(psExpr(e), "EventMember") {
+				return false
+			}
+		}
+	}
+	return true
 }
 
 // storesBool: every X.eventJoinIgnore.Store(arg) has a literal true/false argument (at least one such call exists).
@@ -181,7 +399,7 @@ func (w *psWalker) ambient(goal string, all []psHyp) []psHyp {
 		if a.check != nil && !a.check(w.sh.p) {
 			continue
 		}
-		out = append(out, psHyp{prop: a.prop, tag: a.tag})
+		out = append(out, psHyp{prop: strings.ReplaceAll(a.prop, "EVENTUSER", w.sh.p.consts["serf.EventUser"]), tag: a.tag})
 	}
 	return out
 }
@@ -239,37 +457,38 @@ func (w *psWalker) invFacts(x *ast.ForStmt) {
 	}
 }
 
-func psShort(t psTarget) string {
-	if t.recv == "" {
-		return t.pkg + "_" + t.name
-	}
-	return t.recv + "_" + t.name
-}
-
 func genPanicSites(repo string) (string, error) {
 	p, err := loadPkgs(repo, "serf", "coordinate")
 	if err != nil {
 		return "", err
 	}
 	p.evalIota()
-	sh := &psShared{p: p, names: map[string]int{}}
-	var listed []string
-	for _, t := range psTargets {
-		k := t.pkg + "." + t.name
-		if t.recv != "" {
-			k = t.pkg + "." + t.recv + "." + t.name
+	{
+		// MemberStatus.String panics on values it does not list: its precondition is the disjunction of its cases
+		var alts []string
+		for _, v := range statusValues(p) {
+			alts = append(alts, "{v:s} = "+v)
 		}
+		psContracts["serf.MemberStatus.String"] = psContract{requires: strings.Join(alts, " ∨ ")}
+	}
+	sh := &psShared{p: p, names: map[string]int{}, queued: map[string]bool{}}
+	roots, err := psRoots(p)
+	if err != nil {
+		return "", err
+	}
+	for _, r := range roots {
+		sh.enqueue(r)
+	}
+	var listed []string
+	for qi := 0; qi < len(sh.queue); qi++ {
+		k := sh.queue[qi]
 		fd := p.funcs[k]
 		if fd == nil || fd.Body == nil {
-			return "", fmt.Errorf("%s not found", k)
+			continue
 		}
-		w := &psWalker{sh: sh, pkg: t.pkg, short: psShort(t), fd: fd, types: map[string]psType{}, ver: map[string]int{}, next: map[string]int{}, nilable: map[string]bool{}, derefDone: map[string]psDeref{}, used: map[string]bool{}}
-		if t.recv == "" {
-			w.short = t.pkg + "_" + t.name
-			if t.pkg == "serf" {
-				w.short = "serf_" + t.name
-			}
-		}
+		sh.opq = 0 // opaque names are local to a function: an edit elsewhere does not rename them
+		t := struct{ pkg, name string }{strings.SplitN(k, ".", 2)[0], k[strings.LastIndex(k, ".")+1:]}
+		w := &psWalker{sh: sh, pkg: t.pkg, short: psShortKey(k), fd: fd, types: map[string]psType{}, ver: map[string]int{}, next: map[string]int{}, nilable: map[string]bool{}, derefDone: map[string]psDeref{}, used: map[string]bool{}}
 		if fd.Recv != nil {
 			for _, fl := range fd.Recv.List {
 				for _, n := range fl.Names {
@@ -342,6 +561,24 @@ func genPanicSites(repo string) (string, error) {
 	sort.Strings(cfg)
 	fmt.Fprintf(&b, "/-- configuration preconditions used as hypotheses (not network inputs) -/\ndef configPreconditions : List String := [%s]\n\n", quoteList(cfg))
 	fmt.Fprintf(&b, "def siteNames : List String := [%s]\n\n", quoteList(names))
+	// per function: (site name, kind) in source order — the hand-written handler skeleton must embody these
+	b.WriteString("/-- the sites of each walked function, with their kind, in source order -/\ndef sitesByFunction : List (String × List (String × String)) := [\n")
+	var fns []string
+	byFn := map[string][]string{}
+	for _, s := range sh.sites {
+		if _, ok := byFn[s.fn]; !ok {
+			fns = append(fns, s.fn)
+		}
+		byFn[s.fn] = append(byFn[s.fn], fmt.Sprintf("(%q, %q)", s.name, s.kind))
+	}
+	for i, f := range fns {
+		sep := ","
+		if i == len(fns)-1 {
+			sep = ""
+		}
+		fmt.Fprintf(&b, "  (%q, [%s])%s\n", f, strings.Join(byFn[f], ", "), sep)
+	}
+	b.WriteString("]\n\n")
 	b.WriteString("/-- every site obligation -/\ndef allSites : Prop :=\n  " + strings.Join(names, " ∧\n  ") + "\n\n")
 	b.WriteString("end SerfModel.Gen.PanicSites\n")
 	return b.String(), nil
